@@ -106,6 +106,16 @@ def run_cell(cell, seed):
                 okc, d, ratio = util.compare_many([('out[%d]' % i, u + w, util.np64(f)) for i, (u, w, f) in enumerate(zip(ya, yb, yx))],
                                                   64 * util.EPS64 * G * mx * 2)
                 out.append(res(HELD, case, 'M-SUPER', ratio=ratio) if okc else res(VIOLATED, case, 'M-SUPER', d, ratio=ratio))
+    # homogeneity with extreme scalars: thresholds / clamps / "negligible" shortcuts are not linear
+    for cfac in (1e-12, 1e12):
+        case = {'cell': cell, 'check': 'homogeneity', 'scalar': cfac}
+        okc_, ycs = util.call_lib(ad.apply, [cfac * p for p in xs])
+        if not okc_:
+            out.append(res(VIOLATED, case, 'M-SUPER', 'transform raised on the input scaled by %g' % cfac))
+        else:
+            okc, d, ratio = util.compare_many([('out[%d]' % i, u, cfac * util.np64(w)) for i, (u, w) in enumerate(zip(ycs, yx))],
+                                              64 * util.EPS64 * G * mx * cfac)
+            out.append(res(HELD, case, 'M-SUPER', ratio=ratio) if okc else res(VIOLATED, case, 'M-SUPER', d, ratio=ratio))
     case = {'cell': cell, 'check': 'T(0)'}
     ok0, y0 = util.call_lib(ad.apply, zs)
     if not ok0:
@@ -135,6 +145,28 @@ def run_cell(cell, seed):
                     fail = d
     out.append(res(HELD, case, 'M-SLICE', ratio=worst, bit_identical=bit) if fail is None else
                res(VIOLATED, case, 'M-SLICE', fail, ratio=worst))
+    # slices of wildly different magnitude in one batch: each slice must still be transformed as if alone
+    if N * C > 1:
+        case = {'cell': cell, 'check': 'slice-scales'}
+        sc = torch.tensor([10.0 ** rnd.choice([-9, -6, -3, 0, 3, 6, 9]) for _ in range(N * C)], dtype=torch.float64).reshape(N, C)
+        sc[rnd.randrange(N), rnd.randrange(C)] = 1e9
+        sc.view(-1)[rnd.randrange(N * C)] = 1e-9
+        xsc = [t * sc.reshape([N, C] + [1] * (t.dim() - 2)) for t in xs]
+        okb, yb = util.call_lib(ad.apply, xsc)
+        if not okb:
+            out.append(res(VIOLATED, case, 'M-SLICE', 'transform raised on a batch with slice-dependent scales'))
+        else:
+            worst, fail = 0.0, None
+            for n in range(N):
+                for c in range(C):
+                    for i, (full, base_) in enumerate(zip(yb, yx)):
+                        f = float(sc[n, c])
+                        okc, d, ratio = util.compare('slice (%d,%d) scaled by %g out[%d]' % (n, c, f, i), full[n, c],
+                                                     f * util.np64(base_[n, c]), 64 * util.EPS64 * G * mx * f)
+                        worst = max(worst, ratio)
+                        if not okc and fail is None:
+                            fail = d
+            out.append(res(HELD, case, 'M-SLICE', ratio=worst) if fail is None else res(VIOLATED, case, 'M-SLICE', fail, ratio=worst))
     # leak test
     if N * C > 1:
         case = {'cell': cell, 'check': 'leak'}
